@@ -26,6 +26,8 @@ pub enum Rhs {
     FreshChain(usize),
     /// like FreshMap, but the closure also builds a second node and drops it before returning
     FreshGarbage(usize),
+    /// the closure builds a bind over node .0 whose closure builds `node .1 .map(g(outer lhs, inner lhs, ·))`
+    FreshBind(usize, usize),
 }
 
 #[derive(Clone, Debug)]
@@ -108,6 +110,8 @@ pub struct Shared {
     pub last_branch: RefCell<BTreeMap<usize, bool>>,
     /// lhs value each run of a bind closure saw: (bind, generation) -> lhs
     pub gen_lhs: RefCell<BTreeMap<(usize, u32), SV>>,
+    /// for nodes built by a bind inside a bind closure: the inner lhs value captured
+    pub gen_lhs2: RefCell<BTreeMap<(usize, u32), SV>>,
     /// handles to scope-created nodes smuggled out of bind closures: (bind, branch, gen, pos, node)
     pub smuggled: RefCell<Vec<(usize, bool, u32, u8, Incr<SV>)>>,
     pub updates: RefCell<Vec<UpdLog>>,
@@ -504,6 +508,11 @@ fn cut_fn<const I: usize>(a: &SV, b: &SV) -> bool {
 
 const RHS_FN_BASE: u16 = 16;
 
+/// generation of the nodes a bind's closure builds: outer run * 1000 + run of a bind built inside
+pub fn cur_gen(gens: &BTreeMap<usize, u32>, b: usize) -> u32 {
+    gens.get(&b).copied().unwrap_or(0) * 1000 + gens.get(&(100 + b)).copied().unwrap_or(0)
+}
+
 fn rhs_fn(bind: usize, then: bool, pos: u8) -> u16 {
     RHS_FN_BASE + (bind as u16) * 4 + if then { 0 } else { 2 } + pos as u16
 }
@@ -518,6 +527,7 @@ impl World {
             gens: RefCell::new(BTreeMap::new()),
             last_branch: RefCell::new(BTreeMap::new()),
             gen_lhs: RefCell::new(BTreeMap::new()),
+            gen_lhs2: RefCell::new(BTreeMap::new()),
             smuggled: RefCell::new(vec![]),
             updates: RefCell::new(vec![]),
             on_invoke: RefCell::new(None),
@@ -586,7 +596,7 @@ impl World {
 
     fn rhs_handle(&self, r: &Rhs) -> Option<Incr<SV>> {
         match r {
-            Rhs::Node(j) | Rhs::FreshMap(j) | Rhs::FreshMapCap(j) | Rhs::FreshChain(j) | Rhs::FreshGarbage(j) => self.s_handle(*j),
+            Rhs::Node(j) | Rhs::FreshMap(j) | Rhs::FreshMapCap(j) | Rhs::FreshChain(j) | Rhs::FreshGarbage(j) | Rhs::FreshBind(j, _) => self.s_handle(*j),
             Rhs::FreshConst => None,
         }
     }
@@ -697,6 +707,9 @@ impl World {
                 let lhs_h = self.s_handle(*lhs).unwrap();
                 let then_h = self.rhs_handle(then);
                 let els_h = self.rhs_handle(els);
+                let second = |r: &Rhs| if let Rhs::FreshBind(_, k) = r { self.s_handle(*k) } else { None };
+                let then_h2 = second(then);
+                let els_h2 = second(els);
                 let (then, els) = (then.clone(), els.clone());
                 let ws: WeakState = self.state.as_ref().unwrap().weak();
                 Handle::S(lhs_h.bind(move |x: &SV| {
@@ -709,10 +722,12 @@ impl World {
                         *e += 1;
                         *e
                     };
+                    let gen = gen * 1000;
                     sh.last_branch.borrow_mut().insert(i, take_then);
                     sh.gen_lhs.borrow_mut().insert((i, gen), x.clone());
                     let (r, h) = if take_then { (&then, &then_h) } else { (&els, &els_h) };
-                    make_rhs(&sh, &ws, i, take_then, gen, r, h.as_ref(), x)
+                    let h2 = if take_then { &then_h2 } else { &els_h2 };
+                    make_rhs(&sh, &ws, i, take_then, gen, r, h.as_ref(), h2.as_ref(), x)
                 }))
             }
         };
@@ -874,6 +889,10 @@ impl World {
                 for r in [then, els] {
                     match r {
                         Rhs::Node(j) | Rhs::FreshMap(j) | Rhs::FreshMapCap(j) | Rhs::FreshChain(j) | Rhs::FreshGarbage(j) => roots.push(*j),
+                        Rhs::FreshBind(j, k) => {
+                            roots.push(*j);
+                            roots.push(*k);
+                        }
                         Rhs::FreshConst => {}
                     }
                 }
@@ -896,7 +915,7 @@ impl World {
         for (owner, count) in self.sh.guards.borrow().iter() {
             let (released, what) = match owner {
                 GuardOwner::Main(i) | GuardOwner::BindFn(i) => (!retained.contains(i), format!("closure of node {i}")),
-                GuardOwner::Rhs(b, g) => (!retained.contains(b) || gens.get(b).copied().unwrap_or(0) > *g, format!("closure of a node built by run {g} of bind {b}")),
+                GuardOwner::Rhs(b, g) => (!retained.contains(b) || cur_gen(&gens, *b) > *g, format!("closure of a node built by run {g} of bind {b}")),
             };
             let c = count.get();
             if c > 1 {
@@ -1159,8 +1178,9 @@ impl World {
                 let r = if take_then { then } else { els };
                 match r {
                     Rhs::Node(j) => self.eval(*j, memo),
-                    Rhs::FreshMap(j) | Rhs::FreshGarbage(j) => app(rhs_fn(i, take_then, 0), &[self.eval(*j, memo)]),
-                    Rhs::FreshMapCap(j) => app(rhs_fn(i, take_then, 0), &[l, self.eval(*j, memo)]),
+                    Rhs::FreshMap(j) => app(rhs_fn(i, take_then, 0), &[self.eval(*j, memo)]),
+                    Rhs::FreshMapCap(j) | Rhs::FreshGarbage(j) => app(rhs_fn(i, take_then, 0), &[l, self.eval(*j, memo)]),
+                    Rhs::FreshBind(j, k) => app(rhs_fn(i, take_then, 0), &[l, self.eval(*j, memo), self.eval(*k, memo)]),
                     Rhs::FreshConst => app(rhs_fn(i, take_then, 0), &[l]),
                     Rhs::FreshChain(j) => app(rhs_fn(i, take_then, 1), &[app(rhs_fn(i, take_then, 0), &[self.eval(*j, memo)])]),
                 }
@@ -1202,6 +1222,7 @@ impl World {
                     let r = if branch { then } else { els };
                     match r {
                         Rhs::FreshMap(j) | Rhs::FreshMapCap(j) | Rhs::FreshGarbage(j) => Some(vec![vec![self.eval(*j, memo)]]),
+                        Rhs::FreshBind(j, k) => Some(vec![vec![self.eval(if pos == 9 { *j } else { *k }, memo)]]),
                         Rhs::FreshChain(j) => {
                             if pos == 0 {
                                 Some(vec![vec![self.eval(*j, memo)]])
@@ -1232,6 +1253,10 @@ impl World {
                     if let Some(b) = branch(i) {
                         match if b { then } else { els } {
                             Rhs::Node(j) | Rhs::FreshMap(j) | Rhs::FreshMapCap(j) | Rhs::FreshChain(j) | Rhs::FreshGarbage(j) => stack.push(*j),
+                            Rhs::FreshBind(j, k) => {
+                                stack.push(*j);
+                                stack.push(*k);
+                            }
                             Rhs::FreshConst => {}
                         }
                     }
@@ -1672,8 +1697,9 @@ impl World {
         let Spec::Bind { lhs, then, els } = &self.nodes[b].spec else { return None };
         let l = self.eval(*lhs, memo);
         Some(match if branch { then } else { els } {
-            Rhs::FreshMap(j) | Rhs::FreshGarbage(j) => app(rhs_fn(b, branch, 0), &[self.eval(*j, memo)]),
-            Rhs::FreshMapCap(j) => app(rhs_fn(b, branch, 0), &[l, self.eval(*j, memo)]),
+            Rhs::FreshMap(j) => app(rhs_fn(b, branch, 0), &[self.eval(*j, memo)]),
+            Rhs::FreshMapCap(j) | Rhs::FreshGarbage(j) => app(rhs_fn(b, branch, 0), &[l, self.eval(*j, memo)]),
+            Rhs::FreshBind(j, k) => app(rhs_fn(b, branch, 0), &[l, self.eval(*j, memo), self.eval(*k, memo)]),
             Rhs::FreshChain(j) => {
                 let a0 = app(rhs_fn(b, branch, 0), &[self.eval(*j, memo)]);
                 if pos == 0 {
@@ -1734,7 +1760,7 @@ impl World {
             }
             let got = self.obs.borrow()[k].handles[0].try_get_value();
             // what the reference says about this observer
-            let invalid = smuggled.map_or(false, |(b, _, g, _)| gens.get(&b).copied().unwrap_or(0) > g);
+            let invalid = smuggled.map_or(false, |(b, _, g, _)| cur_gen(&gens, b) > g);
             let want: Option<SV> = if invalid {
                 None
             } else if let Some((b, br, _, pos)) = smuggled {
@@ -1873,6 +1899,15 @@ impl World {
                         let (c2, k2) = (cap.clone(), cur.clone());
                         cover("scope-created-node-ran");
                         require("C03/stale-closure-ran", F::eq(cap, &cur), move || format!("a node created by the closure of bind {b} for lhs = {c2:?} ran in stabilise #{round}, in which the lhs is {k2:?}"));
+                        if let (Some(icap), Spec::Bind { then, els, .. }) = (self.sh.gen_lhs2.borrow().get(&(b, g)).cloned(), &self.nodes[b].spec) {
+                            for r in [then, els] {
+                                if let Rhs::FreshBind(j, _) = r {
+                                    let icur = self.eval(*j, &mut memo);
+                                    let (c2, k2) = (icap.clone(), icur.clone());
+                                    require("C03/stale-closure-ran", F::eq(&icap, &icur), move || format!("a node created by a bind built inside bind {b}'s closure for inner lhs = {c2:?} ran in stabilise #{round}, in which that lhs is {k2:?}"));
+                                }
+                            }
+                        }
                     }
                 }
             }
@@ -2017,11 +2052,11 @@ impl World {
     }
 }
 
-fn make_rhs(sh: &Rc<Shared>, ws: &WeakState, bind: usize, branch: bool, gen: u32, r: &Rhs, h: Option<&Incr<SV>>, lhs: &SV) -> Incr<SV> {
+fn make_rhs(sh: &Rc<Shared>, ws: &WeakState, bind: usize, branch: bool, gen: u32, r: &Rhs, h: Option<&Incr<SV>>, h2: Option<&Incr<SV>>, lhs: &SV) -> Incr<SV> {
     let g0 = rhs_fn(bind, branch, 0);
     let g1 = rhs_fn(bind, branch, 1);
     let g0_guard = sh.new_guard(GuardOwner::Rhs(bind, gen));
-    if matches!(r, Rhs::Node(_) | Rhs::FreshConst) {
+    if matches!(r, Rhs::Node(_) | Rhs::FreshConst | Rhs::FreshBind(..)) {
         // no closure is built for this right-hand side
         sh.guards.borrow_mut().pop();
     }
@@ -2037,15 +2072,46 @@ fn make_rhs(sh: &Rc<Shared>, ws: &WeakState, bind: usize, branch: bool, gen: u32
             if sh.smuggle.get() { sh.smuggled.borrow_mut().push((bind, branch, gen, 0, n.clone())); }
             n
         }
+        Rhs::FreshBind(..) => {
+            let sh2 = sh.clone();
+            let outer = lhs.clone();
+            let over = h2.unwrap().clone();
+            drop(g0_guard);
+            h.unwrap().bind(move |iv: &SV| {
+                // the closure of the bind built inside the outer closure
+                sh2.invoke(NodeKey::Rhs(bind, branch, gen, 9), vec![iv.clone()]);
+                let igen = {
+                    let mut g = sh2.gens.borrow_mut();
+                    let e = g.entry(100 + bind).or_insert(0);
+                    *e += 1;
+                    *e
+                };
+                let cgen = gen + igen;
+                sh2.gen_lhs.borrow_mut().insert((bind, cgen), outer.clone());
+                sh2.gen_lhs2.borrow_mut().insert((bind, cgen), iv.clone());
+                let guard = sh2.new_guard(GuardOwner::Rhs(bind, cgen));
+                let (sh3, o2, i2) = (sh2.clone(), outer.clone(), iv.clone());
+                let m = over.map(move |xv| {
+                    let _ = &guard;
+                    sh3.invoke(NodeKey::Rhs(bind, branch, cgen, 0), vec![xv.clone()]);
+                    app(g0, &[o2.clone(), i2.clone(), xv.clone()])
+                });
+                if sh2.smuggle.get() {
+                    sh2.smuggled.borrow_mut().push((bind, branch, cgen, 0, m.clone()));
+                }
+                m
+            })
+        }
         Rhs::FreshGarbage(_) => {
             let sh2 = sh.clone();
             let tmp = h.unwrap().map(|y: &SV| y.clone());
             drop(tmp);
             cover("node-created-and-dropped-inside-bind-closure");
+            let cap = lhs.clone();
             let n = h.unwrap().map(move |y| {
                 let _ = &g0_guard;
                 sh2.invoke(NodeKey::Rhs(bind, branch, gen, 0), vec![y.clone()]);
-                app(g0, &[y.clone()])
+                app(g0, &[cap.clone(), y.clone()])
             });
             if sh.smuggle.get() { sh.smuggled.borrow_mut().push((bind, branch, gen, 0, n.clone())); }
             n
